@@ -27,7 +27,8 @@ CONSTANTS MaxRows, MaxLen,    \* step machine: 1..MaxRows rows of 1..MaxLen item
           MaxStride,          \* strides 1..MaxStride
           MaxKeys,            \* explicit key lists of 1..MaxKeys distinct names
           NTags,              \* element type tags 1..NTags (opaque: only equality matters)
-          OrderMax, PairsMax, \* OrderPreserved: every row count 1..OrderMax (all pairs up to PairsMax)
+          OrderMin, OrderMax, \* OrderPreserved: every row count OrderMin..OrderMax (a run is one shard of 1..1200)
+          PairsMax,           \* ... comparing all pairs of names up to PairsMax rows, neighbours beyond
           EmitRows,           \* emission: row counts of the ragged arrays
           EmitRect,           \* emission: first-axis lengths of the rectangular arrays
           SmallN,             \* emission: every combination of row lengths for row counts <= SmallN
@@ -330,7 +331,7 @@ Blank == /\ file = <<>> /\ nz = 0 /\ ks = <<>> /\ lens = <<>> /\ concat = <<>> /
 
 (* ---- OrderPreserved: one state per row count -------------------------------- *)
 InitOrder ==
-  /\ kind = "order" /\ x = <<>> /\ tag = 1 /\ style = "new" /\ pc = "order" /\ i \in 1..OrderMax /\ Blank
+  /\ kind = "order" /\ x = <<>> /\ tag = 1 /\ style = "new" /\ pc = "order" /\ i \in OrderMin..OrderMax /\ Blank
 
 (* ---- the step machine -------------------------------------------------------- *)
 InitMC ==
